@@ -126,6 +126,8 @@ CtorStimuli ==
 MatStimuli ==
   {St("tenmat_mul", [left |-> l, right |-> r], "?") : l \in {<<2, 6>>, <<6, 2>>}, r \in {<<2, 6>>, <<6, 2>>, <<1, 2>>, <<3, 2>>}}
   \cup {St("tenmat_add", [left |-> l, right |-> r], "?") : l \in {<<2, 6>>}, r \in {<<2, 6>>, <<6, 2>>, <<1, 6>>, <<2, 1>>, <<3, 4>>}}
+  \* a column and a row unfolding of ONE tensor shape (the harness gives both the tensor shape (6)): numpy would broadcast them
+  \cup {St("tenmat_add", [left |-> l, right |-> r], "?") : l \in {<<6, 1>>, <<1, 6>>}, r \in {<<6, 1>>, <<1, 6>>}}
   \cup {St("khatrirao", [cols |-> c], "?") : c \in {<<2, 2>>, <<2, 1>>, <<2, 2, 3>>, <<1, 1, 1>>, <<3, 2, 3>>}}
 
 AlsStimuli ==
